@@ -269,9 +269,10 @@ def h5ds_copy(src_loc, src_name, dst_loc, dst_name=None,
     if isinstance(src, h5py.Dataset):
         # Variable-length strings are never copied with h5copy, because
         # HDF5 may segfault when copying chunked, compressed datasets of
-        # variable-length strings. They are rewritten with fixed length.
+        # variable-length strings. They are rewritten with fixed length
+        # (empty datasets, which may serve as markers, are copied as-is).
         if ((ensure_compression and not is_properly_compressed(src))
-                or src.dtype.kind == "O"):
+                or (src.dtype.kind == "O" and src.shape[0] != 0)):
             # Chunk size larger than dataset size is not allowed
             # in h5py's `make_new_dset`.
             if src.shape[0] == 0:
